@@ -572,6 +572,10 @@ theorem isHeld_iff (s : Guard.S) (k : String) : Guard.isHeld s k = true ↔ ∃ 
   · rintro ⟨k', b, h, rfl⟩; exact ⟨b, h⟩
   · rintro ⟨b, h⟩; exact ⟨k, b, h, rfl⟩
 
+/-- the log `chainLog` builds -/
+def chainedOf (sh : Shared) (j : Job) (rg : Regs) : LogE :=
+  { j.content rg.ikSet with id := nextId sh.last, prevId := sh.last, hashOk := true, txid := rg.txid }
+
 /-- the automaton moves along the protocol (`held → looked → missed → spent`) without touching the tables -/
 theorem pinv_hold (v : VId) (ir : Nat → Bool) (sh : Shared) (s : Guard.S) (j : Job) (rg : Regs) (ph : GPh) (h' : Hold)
     (h : PInv v ir sh s j rg ph) (e1 : h' ≠ .idle ↔ ph.hold ≠ .idle) (e2 : sysOf h' = sysOf ph.hold)
@@ -758,6 +762,138 @@ theorem item_step (v : VId) (ir : Nat → Bool) (sh : Shared) (s : Guard.S) (j :
         (fun _ _ => hl) (fun _ h => by cases h) (fun _ _ => hP.seen rfl (by rw [hhold]; rfl))
     · simp only [Option.some.injEq] at hph; subst hph
       exact ⟨s, hq, h1, h2, h3⟩
+  | setKey =>
+    rw [htok] at hph; simp only [gstep, Option.some.injEq] at hph; subst hph
+    obtain ⟨rfl, o, via, rfl⟩ := tok_setKey htok
+    have hq : runOn (gm .ik ir) s (evsOf sh j rg (.act .setIk o via)) = .ok s :=
+      runOn_ignored _ s _ (evs_quiet .ik ir j.ep sh j rg _ (by rw [htok]; rfl) (job_rev hP.job))
+    have e1 : effSh sh j rg (.act .setIk o via) = sh := by simp [effSh]
+    have e2 : effRg sh j rg (.act .setIk o via) = { rg with ikSet := true } := by simp [effRg]
+    rw [e1, e2]
+    refine ⟨s, hq, hpend, ⟨hP.job, hP.held, hP.sys, hP.miss, hP.look, hP.seen, hP.clean, (fun h => by cases h), ?_⟩, hS⟩
+    intro l hl
+    obtain ⟨a1, a2, _⟩ := hP.r2 l hl
+    exact ⟨a1, a2, fun h => by cases h⟩
+  | empty =>
+    rw [htok] at hph; simp only [gstep, Option.some.injEq] at hph; subst hph
+    obtain ⟨rfl, rfl⟩ := tok_empty htok
+    have hq : runOn (gm .ref ir) s (evsOf sh j rg (.choose "ref≠''" false)) = .ok s :=
+      runOn_ignored _ s _ (evs_quiet .ref ir j.ep sh j rg _ (by rw [htok]; rfl) (job_rev hP.job))
+    have e1 : effSh sh j rg (.choose "ref≠''" false) = sh := by simp [effSh]
+    have e2 : effRg sh j rg (.choose "ref≠''" false) = rg := by simp [effRg]
+    have href : j.req.ref = "" := by simpa [enabled, atomOk] using hen
+    rw [e1, e2]
+    refine ⟨s, hq, hpend, ⟨hP.job, hP.held, hP.sys, hP.miss, hP.look, hP.seen, hP.clean, fun _ => ?_, ?_⟩, hS⟩
+    · simp [VId.keyOf, Job.content, href]
+    · intro l hl
+      obtain ⟨a1, a2, _⟩ := hP.r2 l hl
+      have : VId.ref.keyOf l = "" := by
+        rcases a1 with a1 | a1
+        · exact a1
+        · rw [a1]; exact href
+      exact ⟨.inl this, a2, fun _ => this⟩
+  | waitP =>
+    rw [htok] at hph; simp only [gstep, Option.some.injEq] at hph; subst hph
+    obtain ⟨o, via, rfl⟩ := tok_waitP htok
+    have hq : runOn (gm v ir) s (evsOf sh j rg (.act (.wait "persisted") o via)) = .ok s :=
+      runOn_ignored _ s _ (evs_quiet v ir j.ep sh j rg _ (by rw [htok]; rfl) (job_rev hP.job))
+    have e1 : effSh sh j rg (.act (.wait "persisted") o via) = sh := by simp [effSh]
+    have e2 : effRg sh j rg (.act (.wait "persisted") o via) = rg := by simp [effRg]
+    have hcl : ∀ q ∈ sh.queue, q.1 ≠ j.a := by
+      have : sh.queue.any (fun q => q.1 = j.a) = false := by simpa [enabled] using hen
+      intro q hq'
+      have := List.any_eq_false.mp this q hq'
+      simpa using this
+    rw [e1, e2]
+    exact ⟨s, hq, hpend, ⟨hP.job, hP.held, hP.sys, hP.miss, hP.look, hP.seen, fun _ => hcl, hP.r1, hP.r2⟩, hS⟩
+  | chain =>
+    rw [htok] at hph; simp only [gstep, Option.some.injEq] at hph; subst hph
+    obtain ⟨o, via, rfl⟩ := tok_chain htok
+    have hq : runOn (gm v ir) s (evsOf sh j rg (.act .chainLog o via)) = .ok s :=
+      runOn_ignored _ s _ (evs_quiet v ir j.ep sh j rg _ (by rw [htok]; rfl) (job_rev hP.job))
+    have e1 : effSh sh j rg (.act .chainLog o via) = { sh with last := some (nextId sh.last) } := by simp [effSh]
+    have e2 : effRg sh j rg (.act .chainLog o via) = { rg with chained := some (chainedOf sh j rg) } := by
+      simp [effRg, chainedOf]
+    rw [e1, e2]
+    refine ⟨s, hq, hpend, ⟨hP.job, hP.held, hP.sys, hP.miss, hP.look, hP.seen, hP.clean, hP.r1, ?_⟩, ?_⟩
+    · intro l hl
+      simp only [Option.some.injEq] at hl
+      subst hl
+      have hk : v.keyOf (chainedOf sh j rg) = v.keyOf (j.content rg.ikSet) := by cases v <;> rfl
+      rw [hk]
+      exact ⟨content_key v j rg.ikSet, content_reverts j rg.ikSet, hP.r1⟩
+    · cases v <;> exact hS
+  | release =>
+    rw [htok] at hph; simp only [gstep] at hph
+    obtain ⟨key, o, via, rfl⟩ := tok_release htok
+    have hq : runOn (gm v ir) s (evsOf sh j rg (.act (.release v.K key) o via)) = .ok s :=
+      runOn_ignored _ s _ (evs_quiet v ir j.ep sh j rg _ (by rw [htok]; rfl) (job_rev hP.job))
+    have e1 : effSh sh j rg (.act (.release v.K key) o via) =
+        { sh with held := sh.held.filter (fun h => !(h.1 = v.K ∧ h.2.1 = j.key v.K ∧ h.2.2 = j.a)) } := by simp [effSh]
+    have e2 : effRg sh j rg (.act (.release v.K key) o via) = rg := by simp [effRg]
+    split at hph
+    · rename_i r hhold
+      simp only [Option.some.injEq] at hph; subst hph
+      rw [e1, e2]
+      refine ⟨s, hq, hpend, ⟨hP.job, ?_, ?_, ?_, ?_, ?_, hP.clean, hP.r1, hP.r2⟩, ?_⟩
+      · intro k; rw [hP.held k, hhold]; simp
+      · intro k
+        have := hP.sys k
+        simp only [List.mem_filter, this, sysOf]
+        simp
+      · intro b hb
+        simp only [Hold.on.injEq] at hb
+        exact hP.miss true (by rw [hhold, hb.1])
+      · intro b hb
+        simp only [Hold.on.injEq] at hb
+        exact hP.look true (by rw [hhold, hb.1])
+      · intro hv hs
+        exact hP.seen hv (by rw [hhold]; cases r <;> simp_all [seenOf])
+      · cases v <;> exact hS
+    · cases hph
+  | takeOk =>
+    rw [htok] at hph; simp only [gstep] at hph
+    obtain ⟨key, via, rfl⟩ := tok_takeOk htok
+    have e1 : effSh sh j rg (.act (.take v.K key) .ok via) = { sh with held := (v.K, j.key v.K, j.a) :: sh.held } := by
+      simp [effSh]
+    have e2 : effRg sh j rg (.act (.take v.K key) .ok via) = rg := by simp [effRg]
+    split at hph
+    · rename_i hhold
+      simp only [Option.some.injEq] at hph; subst hph
+      have hfree : keyFree sh j v.K = true := by simpa [enabled] using hen
+      have hnot : Guard.isHeld s (j.key v.K) = false := by
+        cases hh : Guard.isHeld s (j.key v.K) with
+        | false => rfl
+        | true =>
+          obtain ⟨b, hb⟩ := (isHeld_iff s _).1 hh
+          by_cases hba : b = j.a
+          · subst hba
+            exact absurd hhold ((hP.held _).1 hb).1
+          · have := g2 _ _ hba hb
+            simp only [keyFree, Bool.not_eq_eq_eq_not, Bool.not_true, List.any_eq_false, Bool.decide_and,
+              Bool.and_eq_true, decide_eq_true_eq, not_and] at hfree
+            exact absurd rfl (hfree _ this rfl)
+      have hq : runOn (gm v ir) s (evsOf sh j rg (.act (.take v.K key) .ok via)) =
+          .ok { s with held := (j.key v.K, j.a) :: s.held } := by
+        simp only [evsOf]
+        apply runOn_single
+        simp only [Guard.stepOf, view_taken, if_true, decide_true]
+        exact step_take_ok s j.a _ hnot
+      rw [e1, e2]
+      refine ⟨_, hq, hpend, ⟨hP.job, ?_, ?_, ?_, ?_, ?_, hP.clean, hP.r1, hP.r2⟩, ?_⟩
+      · intro k
+        have := hP.held k
+        simp only [hhold, ne_eq, not_true_eq_false, false_and, iff_false] at this
+        simp [this]
+      · intro k
+        have := hP.sys k
+        simp only [hhold, sysOf, Bool.false_eq_true, false_and, iff_false] at this
+        simp [this, sysOf]
+      · intro b hb; cases hb
+      · intro b hb; cases hb
+      · intro _ hs; simp [seenOf] at hs
+      · cases v <;> exact hS
+    all_goals cases hph
   | _ => sorry
 
 end Engine.Skel.GuardRef
